@@ -222,6 +222,50 @@ def check_float_split(rep, v):
             viol(rep, 'split of %r gave %r, %r' % (mk(v), a1, a2), case)
 
 
+def check_glob_branch_divider(rep):
+    """A branch-level divider declared for the children of a glob port
+    ({'*': {'_divider': f, 'copies': .., 'load': ..}}): over two generations of
+    divisions by key each daughter's child holds exactly the declared variables
+    with the shares the divider returned, and the divider is handed exactly
+    those variables."""
+    handed = []
+
+    def halve(state):
+        handed.append(dict(state))
+        return [{k: v // 2 for k, v in state.items()},
+                {k: v - v // 2 for k, v in state.items()}]
+
+    class Plasmids(Process):
+        def ports_schema(self):
+            return {'plasmids': {'*': {'_divider': halve, 'copies': {'_default': 0},
+                                       'load': {'_default': 0}}}}
+
+        def next_update(self, timestep, states):
+            return {}
+    rep.evaluations += 1
+    case = {'divider': 'branch-level, children of a glob port', 'generations': 2}
+    try:
+        eng = Engine(processes={'agents': {'m': {'p': Plasmids()}}},
+                     topology={'agents': {'m': {'p': {'plasmids': ('plasmids',)}}}},
+                     initial_state={'agents': {'m': {'plasmids': {'pA': {'copies': 7,
+                                                                          'load': 10}}}}},
+                     display_info=False, emitter='null')
+        for mother, d1, d2 in (('m', 'a', 'b'), ('a', 'aa', 'ab')):
+            eng.apply_update({'agents': {'_divide': {
+                'mother': mother, 'daughters': [{'key': d1}, {'key': d2}]}}}, eng.state)
+            eng.state.build_topology_views()
+        got = {k: v['plasmids'] for k, v in strip(eng.state.get_value())['agents'].items()}
+    except Exception as e:
+        viol(rep, 'division raised %r' % (e,), case)
+        return
+    want = {'b': {'pA': {'copies': 4, 'load': 5}}, 'aa': {'pA': {'copies': 1, 'load': 2}},
+            'ab': {'pA': {'copies': 2, 'load': 3}}}
+    if got != want or handed != [{'copies': 7, 'load': 10}, {'copies': 3, 'load': 5}]:
+        viol(rep, 'after two generations the agents hold %r (expected %r); the divider was '
+             'handed %r' % (got, want, handed), case)
+    rep.nontrivial.add('glob-branch-divider')
+
+
 def check_quantity_dividers(rep):
     """zero / set / set_value on a variable with units, emitted: the daughters
     hold quantities in the variable's units (zero of them for `zero`) and the run
@@ -453,6 +497,7 @@ def run(rep, tier, scratch):
             rep.guard(check_big_split, rep, row, what='big split', detail=row)
     rep.guard(check_infinite, rep, what='infinite split')
     rep.guard(check_quantity_dividers, rep, what='dividers on quantities')
+    rep.guard(check_glob_branch_divider, rep, what='branch-level divider under a glob port')
     for row in t['dict']:
         rep.guard(check_dict, rep, row, what='split_dict', detail=row)
     for row in t['custom']:
